@@ -225,6 +225,13 @@ def q_rtss(rng, which=None, scalar_only=False):
             wl.append([rng.choice([C, C + rng.randint(0, 12)]), ["sporadic", T, J], ["scalar", C], ["p", pr[i]] if rng.random() < 0.85 else "pu"])
     idxs = list(range(n)); rng.shuffle(idxs)
     sc = idxs[:rng.choice([1, 1, rng.randint(1, n)])]
+    if rng.random() < 0.12:
+        # a two-callback subchain whose end-of-chain callback has a short period and fills about half of it: arrival steps
+        # fall exactly onto the maximum activation offset of Lemma 18
+        P = rng.randint(3, 9); c = max(1, P // 2)
+        wl = [[rng.randint(1, 12), rng.choice([["periodic", rng.randint(60, 200)], ["sporadic", rng.randint(60, 200), rng.randint(0, 20)]]), ["scalar", rng.randint(1, 2)], rng.choice(["es", "pu", "timer"])],
+              [rng.randint(c, c + 8), ["periodic", P], ["scalar", c], rng.choice(["timer", "pu", ["p", 1]])]]
+        sc = [0, 1]; sb = rng.choice([["dedicated"], sb])
     limit = pick_limit(rng) * 2
     which = which or rng.choice(["rr", "bw"])
     return [[which, sb, wl, sc, limit]]
